@@ -54,7 +54,7 @@ THEOREM_NOTES = {
     "expected coarse payoff = expected fine payoff at level l-1": "derived on paper from C03_telescoping_1d + C03_drift_diffusion_frozen + "
                                                                   "C03_same_brownian_increments + Poisson thinning; not formalised",
 }
-LEVEL_TEXT = ("Proof: 17 Coq theorems (closed under the global context). One-dimensional coupling, for every admissible axis, every middle "
+LEVEL_TEXT = ("Proof: 18 Coq theorems (closed under the global context). One-dimensional coupling, for every admissible axis, every middle "
               "function with the stated properties and every additive non-negative mass: after refine the coarse grid is the even "
               "indices and the coarse cells are bounded by the odd states; coupling_state copies even increments and moves odd ones to "
               "an adjacent coarse state; sum over fine states of rate x P(fine -> y) equals the coarse chain's rate of y (states of "
@@ -221,6 +221,9 @@ def correspond(res):
               "| None, None => true | _, _ => false end.")
     res.case_lemmas += len(groups)
     for gname, ty, chk, cases in groups:
+        if not cases:
+            res.broke(f"correspondence {gname}", "the generator produced no case for this group")
+            continue
         bad, _ = parallel_coq_bad(PROP, f"cases_{gname}", header, ty, chk, cases, shard=40, jobs=14)
         if bad:
             res.broke(f"correspondence {gname}", f"model and implementation differ on {len(bad)} case(s), first: {cases[bad[0]][:1500]}")
@@ -505,64 +508,69 @@ def corner_law_nd(c, inc, tol_bits=34):
     return law
 
 
-def cell_nd(axis, idx):
-    n = len(axis)
-    lo = tuple(0.5 * (axis[max(0, k - 1)] + axis[k]) for k in idx)
-    hi = tuple(0.5 * (axis[k] + axis[min(n - 1, k + 1)]) for k in idx)
+def cell_nd(axes, idx):
+    """axes: one list per coordinate (a single list of floats is used for every coordinate)"""
+    if not isinstance(axes[0], (list, tuple, np.ndarray)):
+        axes = [axes] * len(idx)
+    lo = tuple(0.5 * (float(ax[max(0, k - 1)]) + float(ax[k])) for ax, k in zip(axes, idx))
+    hi = tuple(0.5 * (float(ax[k]) + float(ax[min(len(ax) - 1, k + 1)])) for ax, k in zip(axes, idx))
     return lo, hi
 
 
-def faithful_inflow(axis, o, mass_rate, mass_joint, mass_marg, zero=0):
+def faithful_inflow(axis, o, mass_rate, mass_joint, mass_marg, zero=0, axis2=None):
     """What the RECORDED defect F-C03-1 predicts: the coupled coarse inflow of the faithful model of the current
     couplinglevycopula.__coupling_state (Model/CouplingNd.v re-stated over arbitrary mass functions): corner probabilities of
     ONE odd axis from the margin over that axis, joint quarter masses when both axes are odd.  axis = refined axis (list),
     o = its origin index.  Returns {coarse value pair: inflow}.  Exact when the mass functions return Fractions."""
-    n = len(axis)
+    axes = (list(axis), list(axis2 if axis2 is not None else axis))
     half = (lambda x, y: (x + y) / 2)
     out = {}
 
     def add(v, m):
         out[v] = out.get(v, zero) + m
 
-    def cell(k):
-        return half(axis[max(0, k - 1)], axis[k]), half(axis[k], axis[min(n - 1, k + 1)])
+    def cell(d, k):
+        ax = axes[d]
+        return half(ax[max(0, k - 1)], ax[k]), half(ax[k], ax[min(len(ax) - 1, k + 1)])
 
-    def halfcell(k, d):
-        x, m = axis[k], half(axis[k + d], axis[k])
+    def halfcell(d, k, step):
+        ax = axes[d]
+        x, m = ax[k], half(ax[k + step], ax[k])
         return (min(x, m), max(x, m))
-    for p1 in range(n):
-        for p2 in range(n):
+    for p1 in range(len(axes[0])):
+        for p2 in range(len(axes[1])):
             if (p1, p2) == (o, o):
                 continue
-            (l1, h1), (l2, h2) = cell(p1), cell(p2)
+            (l1, h1), (l2, h2) = cell(0, p1), cell(1, p2)
             rate = mass_rate((l1, l2), (h1, h2))
             if rate == 0:
                 continue
             odd1, odd2 = (p1 - o) % 2 == 1, (p2 - o) % 2 == 1
+            x1, x2 = axes[0][p1], axes[1][p2]
             if not odd1 and not odd2:
-                add((axis[p1], axis[p2]), rate)
+                add((x1, x2), rate)
             elif odd1 and not odd2:
                 tot = mass_marg(0, l1, h1)
                 if tot == 0:
                     continue
                 for d in (-1, 1):
-                    a, b = halfcell(p1, d)
-                    add((axis[p1 + d], axis[p2]), rate * mass_marg(0, a, b) / tot)
+                    a, b = halfcell(0, p1, d)
+                    add((axes[0][p1 + d], x2), rate * mass_marg(0, a, b) / tot)
             elif odd2 and not odd1:
                 tot = mass_marg(1, l2, h2)
                 if tot == 0:
                     continue
                 for d in (-1, 1):
-                    a, b = halfcell(p2, d)
-                    add((axis[p1], axis[p2 + d]), rate * mass_marg(1, a, b) / tot)
+                    a, b = halfcell(1, p2, d)
+                    add((x1, axes[1][p2 + d]), rate * mass_marg(1, a, b) / tot)
             else:
                 tot = mass_joint((l1, l2), (h1, h2))
                 if tot == 0:
                     continue
                 for d1 in (-1, 1):
                     for d2 in (-1, 1):
-                        (a1, b1), (a2, b2) = halfcell(p1, d1), halfcell(p2, d2)
-                        add((axis[p1 + d1], axis[p2 + d2]), rate * mass_joint((a1, a2), (b1, b2)) / tot)
+                        (a1, b1), (a2, b2) = halfcell(0, p1, d1), halfcell(1, p2, d2)
+                        add((axes[0][p1 + d1], axes[1][p2 + d2]), rate * mass_joint((a1, a2), (b1, b2)) / tot)
     return out
 
 
@@ -572,14 +580,15 @@ def oracle_nd(viol, c, coarse_chain, axis_coarse, o_coarse, ctx, tol=1e-6, predi
     the recorded defect F-C03-1 gives for the same input.  A mismatch with (1) that is NOT explained state by state by (2)
     is reported as a new violation; only a mismatch that agrees with (2) everywhere carries the tag F-C03-1."""
     grid = c.grid
-    axis = [float(x) for x in grid.axes[0]]
-    n, o = len(axis), grid.origin_coordinate.value[0]
-    nc = len(axis_coarse)
+    faxes = [[float(x) for x in a] for a in grid.axes]
+    o = grid.origin_coordinate.value[0]
+    caxes = axis_coarse if isinstance(axis_coarse[0], (list, tuple, np.ndarray)) else [axis_coarse, axis_coarse]
+    caxes = [[float(x) for x in a] for a in caxes]
     inflow = {}
-    for p in itertools.product(range(n), repeat=2):
+    for p in itertools.product(range(len(faxes[0])), range(len(faxes[1]))):
         if p == (o, o):
             continue
-        lo, hi = cell_nd(axis, p)
+        lo, hi = cell_nd(faxes, p)
         with warnings.catch_warnings():
             warnings.simplefilter("ignore")
             rate = float(c.fine_process.model.mass(lo, hi))
@@ -591,16 +600,20 @@ def oracle_nd(viol, c, coarse_chain, axis_coarse, o_coarse, ctx, tol=1e-6, predi
             viol("copula coupling raises for a fine state of positive rate", increment=list(inc), **ctx)
             return
         for v, pr in law.items():
+            if v[0] not in caxes[0] or v[1] not in caxes[1]:
+                viol("copula coupling: a coupled coarse value is not a state of the coarse grid (own axis of each coordinate)",
+                     finding="F-C03-3", increment=list(inc), value=list(v), **ctx)
+                return
             inflow[v] = inflow.get(v, 0.0) + rate * pr
     worst, worst_dev = None, None
-    for j in itertools.product(range(nc), repeat=2):
+    for j in itertools.product(range(len(caxes[0])), range(len(caxes[1]))):
         if j == (o_coarse, o_coarse):
             continue
-        lo, hi = cell_nd(axis_coarse, j)
+        lo, hi = cell_nd(caxes, j)
         with warnings.catch_warnings():
             warnings.simplefilter("ignore")
             want = float(coarse_chain.model.mass(lo, hi))
-        val = (axis_coarse[j[0]], axis_coarse[j[1]])
+        val = (caxes[0][j[0]], caxes[1][j[1]])
         got = inflow.get(val, 0.0)
         pred = float(predicted.get(val, 0.0)) if predicted is not None else None
         if pred is not None and abs(got - pred) > tol * (1 + abs(want)) and (worst_dev is None or abs(got - pred) > abs(worst_dev[1] - worst_dev[3])):
@@ -610,23 +623,29 @@ def oracle_nd(viol, c, coarse_chain, axis_coarse, o_coarse, ctx, tol=1e-6, predi
     if worst_dev is not None:
         j, got, want, pred = worst_dev
         viol("copula coupling: the coupled inflow of a coarse state differs from what the faithful model of the current coupling code predicts",
-             coarse_state=list(j), coarse_value=[axis_coarse[j[0]], axis_coarse[j[1]]], got=got, want=want, predicted=pred, **ctx)
+             coarse_state=list(j), coarse_value=[caxes[0][j[0]], caxes[1][j[1]]], got=got, want=want, predicted=pred, **ctx)
     elif worst is not None:
         j, got, want, pred = worst
         extra = {"finding": "F-C03-1", "predicted": pred, "tol": tol} if pred is not None else {}
         viol("copula coupling: sum over fine states of rate x P(coupled to y) differs from the previous level's rate of y",
-             coarse_state=list(j), coarse_value=[axis_coarse[j[0]], axis_coarse[j[1]]], got=got, want=want, **extra, **ctx)
+             coarse_state=list(j), coarse_value=[caxes[0][j[0]], caxes[1][j[1]]], got=got, want=want, **extra, **ctx)
+
+
+KNOWN_TOL = {"nd-table": 1e-6, "nd-real": 1e-5}      # tolerances of the two oracle streams; NOT taken from the violation
 
 
 def matches_known(v, known):
-    """F-C03-1 is accepted only when the implementation's inflow is what the faithful model of the recorded defect predicts
-    (corner probabilities of one odd axis taken from the margin over that axis) and that prediction violates the property"""
+    """F-C03-1 is accepted only for a copula telescoping mismatch (kind nd-table / nd-real) whose inflow is what the faithful
+    model of the recorded defect predicts (corner probabilities of one odd axis taken from the margin over that axis) and
+    whose prediction violates the property; the tolerance is the stream's constant"""
     r = v.get("replay", {})
-    if known.get("id") != "F-C03-1" or r.get("finding") != "F-C03-1":
+    if known.get("id") != "F-C03-1" or r.get("finding") != "F-C03-1" or r.get("kind") not in KNOWN_TOL:
         return False
-    if r.get("predicted") is None or "got" not in r or "want" not in r:
+    if "differs from the previous level's rate of y" not in v.get("what", ""):
         return False
-    tol = r.get("tol", 1e-6) * (1 + abs(r["want"]))
+    if not all(isinstance(r.get(k), (int, float)) for k in ("predicted", "got", "want")):
+        return False
+    tol = KNOWN_TOL[r["kind"]] * (1 + abs(r["want"]))
     return abs(r["got"] - r["predicted"]) <= tol and abs(r["predicted"] - r["want"]) > tol
 
 
@@ -647,72 +666,109 @@ def random_table(rng, bound):
     return Table2(pieces)
 
 
+AXES_POOL = [[-2.0, -1.0, 0.0, 1.0, 2.0], [-2.0, -0.5, 0.0, 0.5, 2.0], [-2.0, -1.5, 0.0, 0.75, 2.0], [-2.0, -0.25, 0.0, 1.25, 2.0]]
+AXES_POOL7 = [[-2.0, -1.0, -0.5, 0.0, 0.5, 1.5, 2.0], [-2.0, -1.5, -0.25, 0.0, 1.0, 1.25, 2.0]]
+
+
+def frozen_check(viol, res, c, pms, product, ctx, label):
+    """one next_level with path managers: coarse drift vector and coarse diffusion matrix must be the fine ones of the level left"""
+    drift_prev = np.array(c.fine_process.process_drift(), dtype=float).copy()
+    dm_prev = np.real(np.array(c._diffusion_matrix_h, dtype=complex)).copy()
+    lvl = c.level
+    c.next_level(mc_paths=2, path_managers=pms, product=product)
+    path = np.asarray(pms[-1].deterministic_path(np.array([0.0, 1.0])), dtype=float)    # [fine, coarse] x dim x time
+    res.count(("nd-frozen", label, lvl), kind="copula next_level: frozen drift / diffusion matrix")
+    res.bump("nd_frozen_matrix", "non-zero, level-dependent" if np.any(dm_prev != np.real(np.array(c._diffusion_matrix_h, dtype=complex))) else
+             ("non-zero" if np.any(dm_prev) else "zero"))
+    if c.level != lvl + 1 or not np.array_equal(path[1][:, 1] - path[1][:, 0], drift_prev.ravel()) or \
+            not np.array_equal(path[0][:, 1] - path[0][:, 0], np.array(c.fine_process.process_drift(), dtype=float).ravel()):
+        viol("copula coupling: the coarse drift is not the previous level's (frozen) fine drift", level=lvl + 1, **ctx)
+    if c._diffusion_matrix_2h is None or not np.array_equal(np.real(np.array(c._diffusion_matrix_2h, dtype=complex)), dm_prev) or \
+            not np.array_equal(np.array(c._diffusion_matrix_h), np.array(c.fine_process._path_simulation.diffusion_matrix)):
+        viol("copula coupling: the coarse diffusion matrix is not the previous level's fine matrix", level=lvl + 1, **ctx)
+
+
+def slice_check_nd(viol, res, c, rng, ctx, n=25):
+    """the copula coupled simulators' inner loop (_coupling_states_for_a_slice): every coupled jump is a coarse-grid state whose
+    coordinates are equal (even coordinate) or adjacent on their own axis (odd coordinate) to the fine state's"""
+    axes = [[float(x) for x in a] for a in c.grid.axes]
+    o = c.grid.origin_coordinate.value[0]
+    d = len(axes)
+    incs = []
+    while len(incs) < n:
+        inc = tuple(rng.randrange(-o, len(axes[k]) - o) for k in range(d))
+        if any(inc):
+            incs.append(inc)
+    sim = c._path_coupling_simulation
+    try:
+        with warnings.catch_warnings():
+            warnings.simplefilter("ignore")
+            np.random.seed(rng.randrange(2 ** 31))
+            vals = sim._coupling_states_for_a_slice(np.array(incs))
+    except (ZeroDivisionError, ValueError):
+        res.bump("nd_slice", "a sampled increment has total mass 0 (raises): skipped")
+        return
+    prev = np.zeros(d)
+    for inc, v in zip(incs, vals):
+        jump = np.array(v, dtype=float) - prev
+        prev = np.array(v, dtype=float)
+        for k in range(d):
+            pk = o + inc[k]
+            near = lambda x, y: abs(x - y) <= 1e-12 * (1 + abs(y))      # the slice accumulates floats: differences carry rounding
+            ok = near(jump[k], axes[k][pk]) if inc[k] % 2 == 0 else (near(jump[k], axes[k][pk - 1]) or near(jump[k], axes[k][pk + 1]))
+            if not ok or not any(near(jump[k], y) for y in axes[k][0::2]):
+                viol("copula coupled simulation (_coupling_states_for_a_slice): a coupled jump is not the fine state / an adjacent coarse state of its own axis",
+                     finding="F-C03-3", increment=list(inc), coordinate=k, jump=[float(x) for x in jump], **ctx)
+                return
+    res.count(("nd-slice", d, len(incs)), kind=f"_coupling_states_for_a_slice dim={d}")
+
+
 def _n_d(res, rng, viol, groups):
     from rpylib.grid.spatial import CTMCGrid, CTMCUniformGrid
     from rpylib.process.markovchain.markovchainlevycopula import MarkovChainLevyCopula
     from rpylib.distribution.sampling import SamplingMethod
-    from stepmeasure import Table2, table_copula_model, real_model_specs, build_copula_model
+    from rpylib.montecarlo.path import MLMCPath
+    from stepmeasure import Table2, table_copula_model, real_model_specs, build_copula_model, step_spec, random_step_measure
     thorough = res.tier == "thorough"
     nd_cases, infl_cases = [], []
-    tables = [("witness", Table2(WITNESS_TABLE), [-2.0, -1.0, 0.0, 1.0, 2.0], 2, 1.0)]
-    for k in range(2 if not thorough else 12):
-        ax = [-2.0, -1.0, -0.5, 0.0, 0.5, 1.5, 2.0] if k % 2 else [-2.0, -0.5, 0.0, 0.5, 2.0]
-        tables.append((f"random{k}", random_table(rng, 2), ax, ax.index(0.0), 0.5))
-    for name, table, ax, o, h in tables:
-        model = table_copula_model(table)
-        grid = CTMCGrid(h=h, origin_coordinate=o, axes=[np.array(ax), np.array(ax)])
-        ctx = dict(kind="nd-table", table=[[str(v) for v in p] for p in table.pieces], axis=ax, o=o, h=h)
+    tables = [("witness", Table2(WITNESS_TABLE), AXES_POOL[0], AXES_POOL[0], 2, 1.0)]
+    for k in range(3 if not thorough else 14):
+        pool = AXES_POOL7 if k % 3 == 2 else AXES_POOL
+        ax0 = pool[rng.randrange(len(pool))]
+        ax1 = ax0 if k == 0 else pool[rng.randrange(len(pool))]        # unequal axes (same length, same origin index)
+        tables.append((f"random{k}", random_table(rng, 2), ax0, ax1, ax0.index(0.0), 0.5))
+    for name, table, ax0, ax1, o, h in tables:
+        fv = (False, True) if name == "witness" else (rng.random() < 0.5, rng.random() < 0.7)
+        model = table_copula_model(table, sigma=(0.5, 0.25), fv=fv)
+        grid = CTMCGrid(h=h, origin_coordinate=o, axes=[np.array(ax0), np.array(ax1)])
+        ctx = dict(kind="nd-table", table=[[str(v) for v in p] for p in table.pieces], axis=ax0, axis1=ax1, o=o, h=h, fv=list(fv))
+        res.bump("nd_axes", "equal" if ax0 == ax1 else "unequal")
         try:
             with warnings.catch_warnings():
                 warnings.simplefilter("ignore")
                 coarse_chain = MarkovChainLevyCopula(levy_copula_model=model, grid=copy.deepcopy(grid), method=SamplingMethod.INVERSION)
                 c, product = build_coupling_nd(model, grid)
-                from rpylib.montecarlo.path import MLMCPath
                 pms = [MLMCPath(deterministic_path=c.fine_process.deterministic_path, activate_spot_underlying=False)]
-                drift_prev = np.array(c.fine_process.process_drift(), dtype=float).copy()
-                dm_prev = np.array(c._diffusion_matrix_h, dtype=float).copy()
-                c.next_level(mc_paths=2, path_managers=pms, product=product)
-                path = np.asarray(pms[-1].deterministic_path(np.array([0.0, 1.0])), dtype=float)    # [fine, coarse] x dim x time
+                frozen_check(viol, res, c, pms, product, ctx, name)
+                if name == "witness":      # a second next_level on a copy
+                    frozen_check(viol, res, copy.deepcopy(c), copy.deepcopy(pms), product, ctx, name + "-2")
         except Exception as e:  # noqa
             viol(f"building the copula coupling raises {type(e).__name__}", reason=str(e)[:200], **ctx)
             continue
-        # frozen coarse drift and diffusion matrix of the copula coupling
-        res.count(("nd-frozen", name), kind="copula next_level: frozen drift / diffusion matrix")
-        if not np.array_equal(path[1][:, 1] - path[1][:, 0], drift_prev.ravel()) or \
-                not np.array_equal(path[0][:, 1] - path[0][:, 0], np.array(c.fine_process.process_drift(), dtype=float).ravel()):
-            viol("copula coupling: the coarse drift is not the previous level's (frozen) fine drift", **ctx)
-        if c._diffusion_matrix_2h is None or not np.array_equal(np.array(c._diffusion_matrix_2h, dtype=float), dm_prev) or \
-                not np.array_equal(np.array(c._diffusion_matrix_h, dtype=float), np.array(c.fine_process._path_simulation.diffusion_matrix, dtype=float)):
-            viol("copula coupling: the coarse diffusion matrix is not the previous level's fine matrix", **ctx)
-        if name == "witness":      # a second next_level on a copy: the frozen quantities must again be those of the level being left
-            try:
-                with warnings.catch_warnings():
-                    warnings.simplefilter("ignore")
-                    c2 = copy.deepcopy(c)
-                    pms2 = copy.deepcopy(pms)
-                    d_prev = np.array(c2.fine_process.process_drift(), dtype=float).copy()
-                    m_prev = np.array(c2._diffusion_matrix_h, dtype=float).copy()
-                    c2.next_level(mc_paths=2, path_managers=pms2, product=product)
-                    path2 = np.asarray(pms2[-1].deterministic_path(np.array([0.0, 1.0])), dtype=float)
-                res.count(("nd-frozen-2", name), kind="copula next_level: frozen drift / diffusion matrix")
-                if c2.level != 2 or not np.array_equal(path2[1][:, 1] - path2[1][:, 0], d_prev.ravel()) or \
-                        not np.array_equal(np.array(c2._diffusion_matrix_2h, dtype=float), m_prev):
-                    viol("copula coupling: after a second next_level the coarse drift / diffusion matrix are not those of level 1", **ctx)
-            except Exception as e:  # noqa
-                viol(f"second next_level of the copula coupling raises {type(e).__name__}", reason=str(e)[:200], **ctx)
-        xs = [float(x) for x in c.grid.axes[0]]
+        xs, ys = [float(x) for x in c.grid.axes[0]], [float(x) for x in c.grid.axes[1]]
         o2 = c.grid.origin_coordinate.value[0]
-        if c.grid.origin_coordinate.value != (o2, o2) or not np.array_equal(c.grid.axes[0], c.grid.axes[1]):
-            viol("copula grid: axes / origin differ between the two dimensions after refine", **ctx)
+        if c.grid.origin_coordinate.value != (o2, o2) or xs[0::2] != ax0 or ys[0::2] != ax1:
+            viol("copula grid: after refine the coarse axes are not the even indices of each axis / origin indices differ", **ctx)
             continue
+        slice_check_nd(viol, res, c, rng, ctx)
         # exact correspondence of __coupling_state
-        incs = [(p1 - o2, p2 - o2) for p1 in range(len(xs)) for p2 in range(len(xs)) if (p1, p2) != (o2, o2)]
-        if len(incs) > 90:
-            incs = rng.sample(incs, 90)
+        incs = [(p1 - o2, p2 - o2) for p1 in range(len(xs)) for p2 in range(len(ys)) if (p1, p2) != (o2, o2)]
+        if len(incs) > 70:
+            incs = rng.sample(incs, 70)
         for inc in incs:
             us = [0.5] if inc[0] % 2 == 0 and inc[1] % 2 == 0 else [rng.randrange(1, 2 ** 16) / 2 ** 16, 2.0 ** -12, 1 - 2.0 ** -12]
             odd = (inc[0] % 2) + (inc[1] % 2)
-            if odd:   # uniforms next to the cumulative corner probabilities (dyadic tables: thresholds are rationals with small denominators)
+            if odd:   # uniforms next to the cumulative corner probabilities
                 law = corner_law_nd(c, inc, tol_bits=30)
                 if law:
                     acc = 0.0
@@ -722,26 +778,26 @@ def _n_d(res, rng, viol, groups):
             for u in us:
                 v = coupling_state_nd_impl(c, inc, u)
                 res.count(("nd", name, inc, u), nontrivial=odd > 0, kind=f"__coupling_state 2d ({odd} odd axes)")
-                nd_cases.append(f"({table.coq()}, {lst([qlit(x) for x in xs])}, {natlit(o2)}, {zlit(inc[0])}, {zlit(inc[1])}, {qlit(u)}, "
-                                f"{opt(v, lambda t: '(' + qlit(t[0]) + ', ' + qlit(t[1]) + ')')})")
-        # the faithful model of the recorded defect, exact Fractions on the table (truncation inactive: support inside the grid)
+                nd_cases.append(f"({table.coq()}, {lst([qlit(x) for x in xs])}, {lst([qlit(x) for x in ys])}, {natlit(o2)}, {zlit(inc[0])}, "
+                                f"{zlit(inc[1])}, {qlit(u)}, {opt(v, lambda t: '(' + qlit(t[0]) + ', ' + qlit(t[1]) + ')')})")
+        # the faithful model of the recorded defect F-C03-1, exact Fractions on the table (support inside the grid)
         bigq = table.support_bound() + 1
-        fine_axis = [Fr(x) for x in xs]
-        pred = faithful_inflow(fine_axis, o2, lambda a, b: table.mass_q(a, b), lambda a, b: table.mass_q(a, b),
-                               lambda k, a, b: table.mass_q((a, -bigq), (b, bigq)) if k == 0 else table.mass_q((-bigq, a), (bigq, b)), zero=Fr(0))
-        js = [(j1, j2) for j1 in range(len(ax)) for j2 in range(len(ax)) if (j1, j2) != (o, o)]
-        if len(js) > 12 and name != "witness":
-            js = rng.sample(js, 12)
+        pred = faithful_inflow([Fr(x) for x in xs], o2, lambda a, b: table.mass_q(a, b), lambda a, b: table.mass_q(a, b),
+                               lambda k, a, b: table.mass_q((a, -bigq), (b, bigq)) if k == 0 else table.mass_q((-bigq, a), (bigq, b)),
+                               zero=Fr(0), axis2=[Fr(y) for y in ys])
+        js = [(j1, j2) for j1 in range(len(ax0)) for j2 in range(len(ax1)) if (j1, j2) != (o, o)]
+        if len(js) > 10 and name != "witness":
+            js = rng.sample(js, 10)
         for (j1, j2) in js:       # ties the Python re-statement to the Coq model Model/CouplingNd.v (inflow2)
-            infl_cases.append(f"({table.coq()}, {lst([qlit(x) for x in ax])}, {natlit(o)}, {natlit(j1)}, {natlit(j2)}, "
-                              f"{qlit(pred.get((Fr(ax[j1]), Fr(ax[j2])), Fr(0)))})")
-        oracle_nd(viol, c, coarse_chain, ax, o, ctx, predicted={(float(k[0]), float(k[1])): v for k, v in pred.items()})
-    groups.append(("inflownd", "list (Q * Q * Q * Q * Q) * list Q * nat * nat * nat * Q",
-                   "fun c => match c with (ps, xs, o, j1, j2, e) => Qeq_bool (inflow2 ps (refine_axis amid xs) (2 * o) (2 * j1) (2 * j2)) e end",
-                   infl_cases))
-    groups.append(("statend", "list (Q * Q * Q * Q * Q) * list Q * nat * Z * Z * Q * option (Q * Q)",
-                   "fun c => match c with (ps, xs, o, i1, i2, u, e) => oqq_eqb (table_coupling_state2 ps xs o i1 i2 u) e end", nd_cases))
-    # real margins with a Clayton copula (tolerance): the experiment of DESIGN section 6
+            infl_cases.append(f"({table.coq()}, {lst([qlit(x) for x in ax0])}, {lst([qlit(x) for x in ax1])}, {natlit(o)}, {natlit(j1)}, {natlit(j2)}, "
+                              f"{qlit(pred.get((Fr(ax0[j1]), Fr(ax1[j2])), Fr(0)))})")
+        oracle_nd(viol, c, coarse_chain, [ax0, ax1], o, ctx, predicted={(float(k[0]), float(k[1])): v for k, v in pred.items()})
+    groups.append(("inflownd", "list (Q * Q * Q * Q * Q) * list Q * list Q * nat * nat * nat * Q",
+                   "fun c => match c with (ps, xs, ys, o, j1, j2, e) => "
+                   "Qeq_bool (inflow2 ps (refine_axis amid xs) (refine_axis amid ys) (2 * o) (2 * j1) (2 * j2)) e end", infl_cases))
+    groups.append(("statend", "list (Q * Q * Q * Q * Q) * list Q * list Q * nat * Z * Z * Q * option (Q * Q)",
+                   "fun c => match c with (ps, xs, ys, o, i1, i2, u, e) => oqq_eqb (table_coupling_state2 ps xs ys o i1 i2 u) e end", nd_cases))
+    # real margins with a Clayton copula (tolerance): the experiment of DESIGN section 6, now with path managers
     specs = real_model_specs(rng)
     hem = [s for s in specs if s["family"] == "HEM"][0]
     model = build_copula_model([hem, hem], "clayton", theta=0.7, eta=0.3)
@@ -753,15 +809,40 @@ def _n_d(res, rng, viol, groups):
             warnings.simplefilter("ignore")
             coarse_chain = MarkovChainLevyCopula(levy_copula_model=model, grid=copy.deepcopy(grid), method=SamplingMethod.INVERSION)
             c, product = build_coupling_nd(model, grid)
-            c.next_level(mc_paths=2, path_managers=None, product=product)
+            pms = [MLMCPath(deterministic_path=c.fine_process.deterministic_path, activate_spot_underlying=False)]
+            frozen_check(viol, res, c, pms, product, ctx, "real")
         res.count(("nd-real", "HEMxHEM clayton"), kind="copula coupling, real margins")
         fine_axis = [float(x) for x in c.grid.axes[0]]
         fm, um = c.fine_process.model, c.model      # rates from the truncated chain model, corner masses from the un-truncated one (as the code)
         pred = faithful_inflow(fine_axis, c.grid.origin_coordinate.value[0], lambda a, b: float(fm.mass(a, b)),
                                lambda a, b: float(um.mass(a, b, [0, 1])), lambda k, a, b: float(um.mass((a,), (b,), [k])), zero=0.0)
         oracle_nd(viol, c, coarse_chain, ax, 2, ctx, tol=1e-5, predicted=pred)
+        with warnings.catch_warnings():
+            warnings.simplefilter("ignore")
+            np.random.seed(res.seed % 2 ** 31)
+            for _ in range(2):
+                c.simulate_one_path_with_coupling()       # the fixed-dates coupled simulator end to end
+        slice_check_nd(viol, res, c, rng, ctx, n=15)
     except Exception as e:  # noqa
-        viol(f"building the copula coupling raises {type(e).__name__}", reason=str(e)[:200], **ctx)
+        viol(f"copula coupling with real margins raises {type(e).__name__}", reason=str(e)[:200], **ctx)
+    # dimension 3 (no Coq model): copy / adjacency of every coordinate on unequal axes, independent step margins
+    try:
+        with warnings.catch_warnings():
+            warnings.simplefilter("ignore")
+            axes3 = [AXES_POOL[0], AXES_POOL[rng.randrange(1, 4)], AXES_POOL[rng.randrange(1, 4)]]
+            ms = []
+            for k in range(3):
+                nu = random_step_measure(rng, Fr(-2), Fr(2), bits=1, cover=True, max_pieces=3, zero_prob=0.0)
+                nu.strict = False
+                ms.append(step_spec(nu))
+            model3 = build_copula_model(ms, "clayton", theta=0.7, eta=0.3)
+            grid3 = CTMCGrid(h=float(axes3[0][3]), origin_coordinate=2, axes=[np.array(a) for a in axes3])
+            ctx3 = dict(kind="nd-3d", margins=ms, axes=axes3)
+            c3, product3 = build_coupling_nd(model3, grid3)
+            c3.next_level(mc_paths=2, path_managers=None, product=product3)
+            slice_check_nd(viol, res, c3, rng, ctx3, n=40 if not thorough else 300)
+    except Exception as e:  # noqa
+        viol(f"copula coupling in dimension 3 raises {type(e).__name__}", reason=str(e)[:200], kind="nd-3d")
 
 
 def search(res):
@@ -798,15 +879,17 @@ def replay(path):
             from rpylib.process.markovchain.markovchainlevycopula import MarkovChainLevyCopula
             from rpylib.distribution.sampling import SamplingMethod
             if k == "nd-table":
-                model = table_copula_model(Table2([tuple(Fr(v) for v in p) for p in data["table"]]))
+                model = table_copula_model(Table2([tuple(Fr(v) for v in p) for p in data["table"]]), sigma=(0.5, 0.25),
+                                           fv=tuple(data.get("fv", [True, True])))
             else:
                 model = build_copula_model(data["models"], "clayton", theta=0.7, eta=0.3)
             ax = data["axis"]
-            grid = CTMCGrid(h=data["h"], origin_coordinate=data["o"], axes=[np.array(ax), np.array(ax)])
+            ax1 = data.get("axis1", ax)
+            grid = CTMCGrid(h=data["h"], origin_coordinate=data["o"], axes=[np.array(ax), np.array(ax1)])
             coarse_chain = MarkovChainLevyCopula(levy_copula_model=model, grid=copy.deepcopy(grid), method=SamplingMethod.INVERSION)
             c, product = build_coupling_nd(model, grid)
             c.next_level(mc_paths=2, path_managers=None, product=product)
-            oracle_nd(viol, c, coarse_chain, ax, data["o"], {}, tol=1e-6 if k == "nd-table" else 1e-5)
+            oracle_nd(viol, c, coarse_chain, [ax, ax1], data["o"], {}, tol=1e-6 if k == "nd-table" else 1e-5)
         else:
             print("replay: re-run ./check C03")
             return 1
